@@ -24,6 +24,9 @@ impl SwCheck {
     }
 }
 
+/// the included file of the fuzz target harness/vfuzz/fuzz/fuzz_targets/ide_sweep.rs
+pub const FUZZ_INC: &str = "class Base<int p = 1> { int f = p; }\nmulticlass M<int a> { def _x : Base<a>; }\ndefvar gv = [1, 2];\n";
+
 /// Semantic stress patterns: self/mutual references, redefinitions, shadowing, odd nestings.
 pub const STRESS: &[&str] = &[
     "class A : A;\nclass B { A a; int y = a.zz; }\n",
@@ -479,6 +482,23 @@ impl Check for SwCheck {
             // salsa + parking_lot + rowan + the indexer under the Miri interpreter (tiny two-file workspaces)
             crate::sanit::miri("ide", seed, 16, 2, agg);
         }
+        // this check's monitor under ASan + libFuzzer: coverage-guided root texts of a two-file workspace, full sweep
+        let mode = self.mode;
+        let name = match mode {
+            SMode::Totality => "totality",
+            SMode::Coherence => "coherence",
+            SMode::Ranges => "ranges",
+        };
+        crate::sanit::fuzz_with_env("ide_sweep", 75, &[("VFUZZ_MODE", name)], agg, &move |bytes| {
+            let text = String::from_utf8_lossy(bytes).to_string();
+            if text.len() > 4096 {
+                return vec![];
+            }
+            let w = Workspace { files: vec![("/ws/main.td".into(), format!("include \"inc.td\"\n{}", text)), ("/ws/inc.td".into(), FUZZ_INC.to_string())], root: 0 };
+            let mut ctx = Ctx::new(Tier::Thorough, 0, None);
+            SwCheck { mode }.check_state(&w, "fuzz", &mut ctx);
+            ctx.violations.values().map(|v| (v.signature.clone(), v.what.clone())).collect()
+        });
     }
     fn technique(&self) -> &'static str {
         match self.mode {
